@@ -172,10 +172,10 @@ func run(rep *kit.Report, rq reqSpec, bl blockSpec, rp replySpec, retry bool) {
 		lines = append(lines, "transparent")
 	}
 	if bl.up != "" {
-		lines = append(lines, "header_upstream "+bl.up)
+		lines = append(lines, "header_upstream "+strings.ReplaceAll(bl.up, "\n", "\n\theader_upstream "))
 	}
 	if bl.down != "" {
-		lines = append(lines, "header_downstream "+bl.down)
+		lines = append(lines, "header_downstream "+strings.ReplaceAll(bl.down, "\n", "\n\theader_downstream "))
 	}
 	if retry {
 		lines = append(lines, "policy first", "try_duration 2s", "try_interval 1ms", "fail_timeout 10s")
@@ -341,18 +341,7 @@ func run(rep *kit.Report, rq reqSpec, bl blockSpec, rp replySpec, retry bool) {
 			wantHost = "client.test"
 			exp["X-Forwarded-Port"] = g.header["X-Forwarded-Port"] // server port placeholder: environment-specific
 		}
-		switch {
-		case strings.HasPrefix(bl.up, "X-Up "):
-			exp.Set("X-Up", "set")
-		case strings.HasPrefix(bl.up, "+X-A "):
-			exp.Add("X-A", "added")
-		case strings.HasPrefix(bl.up, "-X-A"):
-			exp.Del("X-A")
-		case strings.HasPrefix(bl.up, "X-A "):
-			if v := exp.Get("X-A"); v != "" {
-				exp.Set("X-A", strings.ReplaceAll(v, "1", "one"))
-			}
-		}
+		applyRules(exp, bl.up)
 		skip := map[string]bool{"Content-Length": true, "Transfer-Encoding": true}
 		if a, b := multiset(g.header, skip), multiset(exp, skip); !reflect.DeepEqual(a, b) {
 			k := "request-headers"
@@ -409,18 +398,7 @@ func run(rep *kit.Report, rq reqSpec, bl blockSpec, rp replySpec, retry bool) {
 				exp.Add(k, kv[1])
 			}
 		}
-		switch {
-		case strings.HasPrefix(bl.down, "X-Down "):
-			exp.Set("X-Down", "set")
-		case strings.HasPrefix(bl.down, "+X-B "):
-			exp.Add("X-B", "added")
-		case strings.HasPrefix(bl.down, "-X-B"):
-			exp.Del("X-B")
-		case strings.HasPrefix(bl.down, "X-B "):
-			if v := exp.Get("X-B"); v != "" {
-				exp.Set("X-B", strings.ReplaceAll(v, "1", "one"))
-			}
-		}
+		applyRules(exp, bl.down)
 		skip := map[string]bool{"Content-Type": true, "Trailer": true, "Content-Length": true}
 		for k := range rec.Snap {
 			if strings.HasPrefix(k, http.TrailerPrefix) {
@@ -467,6 +445,30 @@ func run(rep *kit.Report, rq reqSpec, bl blockSpec, rp replySpec, retry bool) {
 	rep.Class(fmt.Sprintf("%s/%s/body=%d/reply=%d", cl, rq.method, rq.bodyLen, rp.status))
 }
 
+// applyRules interprets header_upstream / header_downstream rules (one per line) on h:
+// "+Name value" adds, "-Name" removes, "Name regexp replacement" rewrites existing values, "Name value" sets.
+func applyRules(h http.Header, rules string) {
+	if rules == "" {
+		return
+	}
+	for _, r := range strings.Split(rules, "\n") {
+		f := strings.Fields(r)
+		switch {
+		case strings.HasPrefix(f[0], "+"):
+			h.Add(f[0][1:], f[1])
+		case strings.HasPrefix(f[0], "-"):
+			h.Del(f[0][1:])
+		case len(f) == 3:
+			k := http.CanonicalHeaderKey(f[0])
+			for i, v := range h[k] {
+				h[k][i] = strings.ReplaceAll(v, f[1], f[2])
+			}
+		default:
+			h.Set(f[0], f[1])
+		}
+	}
+}
+
 func main() {
 	rep := kit.NewReport("C04", "exploration",
 		"every pair of dimensions fully crossed (others at their default) over: method x5, path spelling x5, query x3, 12 header multisets, body length x6, framing x2, base path x3, target query x2, without x2, transparent x2, header_upstream rule x5, header_downstream rule x5, reply status x4, reply headers x4, reply body x3, trailers x3; plus the retry scenario (first backend fails after reading half the body) over base path x body x framing x header rules; upstream request observed by a recording transport and client response by the strict writer, compared field by field; distinct_nontrivial = outcome classes")
@@ -499,8 +501,10 @@ func main() {
 	tqueries := []string{"", "t=1"}
 	withouts := []string{"", "/api"}
 	transp := []bool{false, true}
-	ups := []string{"", "X-Up set", "+X-A added", "-X-A", "X-A 1 one"}
-	downs := []string{"", "X-Down set", "+X-B added", "-X-B", "X-B 1 one"}
+	ups := []string{"", "X-Up set", "+X-A added", "-X-A", "X-A 1 one", "+X-A added\n+X-A again"}
+	// (the last two: a rule for a hop-by-hop field, and one for a field the backend names in its Connection header:
+	// the configured value is the proxy's own and reaches the client)
+	downs := []string{"", "X-Down set", "+X-B added", "-X-B", "X-B 1 one", "+X-B added\n+X-B again", "Alt-Svc h2", "+X-BHop edge"}
 	statuses := []int{200, 204, 404, 500}
 	rhdrs := [][][2]string{
 		{{"X-B", "1"}},
